@@ -1249,8 +1249,18 @@ fn copy_prop_reverse(
     {
         let mut changed = true;
         let mut cycle_detected = false;
-        while changed {
+        // Without cycles, the closure is reached in at most `src_to_dst.len()` rounds.
+        let max_rounds = src_to_dst.len();
+        let mut rounds = 0;
+        while changed && !cycle_detected {
             changed = false;
+            rounds += 1;
+            if rounds > max_rounds {
+                // Only a cycle (e.g. a self copy `x <- x` reachable from another
+                // symbol, or a cycle longer than two) can keep the map changing.
+                cycle_detected = true;
+                break;
+            }
             src_to_dst.clone().iter().for_each(|(src, dst)| {
                 if let Some(next_dst) = src_to_dst.get(dst) {
                     // Cycle detection
